@@ -1,8 +1,9 @@
 /- protocol handler of the serve family (C06, C07, C10, C19): `(serve id scfg (hist (h entry sreq real)…))` -/
 import Restful.Driver.Routing
 import Restful.Model.Serve
-namespace Restful.Driver
-open SExp Serve
+import Restful.Spec.Serve
+namespace Restful.Driver.ServeP
+open Restful.Driver SExp Serve
 
 def decServeAct : SExp → Option Act
   | .list [.atom "w", b] => do pure (.write (← asStr b))
@@ -102,20 +103,74 @@ def encServeResult (r : Result) : String :=
   s!"(res (st {status}) (ce {hex ce}) (coded {if coded then 1 else 0}) (body {hex body}) (complete {if complete then 1 else 0}) {encServeKV "hdr" sent} (log" ++
     String.join (r.log.map fun e => " " ++ encServeEvent e) ++ s!") (esc {match r.escaped with | some v => hex v | none => "none"}) (recov {r.recoverCalls}) (acq {r.world.acquired}) (rel {r.world.released}))"
 
-/-- `(serve id scfg (hist (h entry sreq) …))` → one `(res …)` per request, each served on a fresh ledger -/
+def decStageAtom (a : String) : Option Serve.Stage :=
+  if a == "plain" then some (.plain 0)
+  else if a == "err" then some .errorWriter
+  else if a == "rec" then some .recover
+  else if a.startsWith "cf" then (a.drop 2).toNat?.map .cfilter
+  else if a.startsWith "sf" then (a.drop 2).toNat?.map .sfilter
+  else if a.startsWith "rf" then (a.drop 2).toNat?.map .rfilter
+  else if a.startsWith "h" then (a.drop 1).toNat?.map .handler
+  else none
+
+def decKVs (kw : String) (e : SExp) : Option (List (Str × Str)) := do
+  (← args kw e).mapM fun kv =>
+    match kv with
+    | .list [k, v] => do pure (← asStr k, ← asStr v)
+    | _ => none
+
+def decEvent : SExp → Option Event
+  | .list [.atom "ev", .atom st, post, attrs, params, sp, wr] => do
+    pure { stage := ← decStageAtom st, post := ← asBool post, attrs := ← decKVs "attrs" attrs, params := ← decKVs "params" params,
+           selPath := ← asStr sp, wrappers := ← (← args "wr" wr).mapM asNat }
+  | _ => none
+
+def arg1 (kw : String) (e : SExp) : Option SExp := do
+  match ← args kw e with
+  | [x] => pure x
+  | _ => none
+
+def decObs (e : SExp) : Option Spec.Obs := do
+  match ← args "real" e with
+  | [st, ce, coded, body, complete, hdr, lg, esc, recov, acq, rel, dbl] =>
+    let escv ← match ← arg1 "esc" esc with
+      | .atom "none" => pure none
+      | x => (asStr x).map some
+    pure { status := ← asNat (← arg1 "st" st), ce := ← asStr (← arg1 "ce" ce), coded := ← asBool (← arg1 "coded" coded),
+           body := ← asStr (← arg1 "body" body), complete := ← asBool (← arg1 "complete" complete), hdr := ← decKVs "hdr" hdr,
+           log := ← (← args "log" lg).mapM decEvent, escaped := escv, recov := ← asNat (← arg1 "recov" recov),
+           acq := ← asNat (← arg1 "acq" acq), rel := ← asNat (← arg1 "rel" rel), dbl := ← asNat (← arg1 "dbl" dbl) }
+  | _ => none
+
+/-- `(serve id scfg (hist (h entry sreq real?) …))` → one `(res …)` per request, each served on a fresh
+    ledger, with the serve predicates evaluated on the REAL observation when one is given -/
 def handleServe : SExp → Option String
   | .list [.atom "serve", .atom id, c, h] =>
     match decSCfg c, args "hist" h with
     | some cfg, some hs =>
       let outs := hs.map fun e =>
         match e with
-        | .list (.atom "h" :: en :: sr :: _) =>
+        | .list (.atom "h" :: en :: sr :: rest) =>
           match decServeEntry en, decSReq sr with
-          | some entry, some sreq => encServeResult (serve implEnv cfg entry {} sreq)
+          | some entry, some sreq =>
+            let res := encServeResult (serve implEnv cfg entry {} sreq)
+            let specs := match rest with
+              | [real] =>
+                match decObs real with
+                | some o => specLine "C06" (Spec.c06Holds implEnv cfg entry sreq o) ++ specLine "C07" (Spec.c07Holds implEnv cfg entry sreq o)
+                    ++ specLine "C10" (Spec.c10Holds implEnv cfg entry sreq o)
+                    ++ specLine "F09" (Spec.f09Class implEnv cfg entry sreq) ++ specLine "F18" (Spec.f18Class implEnv cfg entry sreq)
+                | none => " (spec BADOBS 0)"
+              | _ => ""
+            (res.dropEnd 1).toString ++ specs ++ ")"
           | _, _ => "(bad-h)"
         | _ => "(bad-h)"
       some (s!"(out {id}" ++ String.join (outs.map (" " ++ ·)) ++ ")")
     | _, _ => some s!"(bad-serve {id})"
   | _ => none
 
+end Restful.Driver.ServeP
+
+namespace Restful.Driver
+def handleServe := ServeP.handleServe
 end Restful.Driver
